@@ -361,6 +361,88 @@ class Iteration(Family):
 
 
 @register
+class SaveLoad(Family):
+    """save / load round trip, the library's part of it: `save` hands np.savez the flat data and the geometry's code array, `load` rebuilds the array from
+    exactly those two entries; with a file that gives back what was stored (np.savez / np.load: assumed) the loaded array has the same rows - same
+    number of rows, starts, lengths, cells, element type - and the saved array is not modified."""
+    name = "RaggedArray.save/load"
+    qualname = "npstructures.raggedarray:RaggedArray.save"
+    serves = ["C01", "C19"]
+    assumed = ["np.load(f) after np.savez(f, **arrays) gives back the stored arrays under their names (file system and .npz format: outside the contracts)"]
+
+    def extra_functions(self):
+        return ["RaggedArray.load", "RaggedShape.to_dict", "RaggedShape.from_dict", "RaggedShape.__init__[is_coded]", "RaggedArray.__init__"]
+
+    def run(self, ctx, kind):
+        from ..sym import symnp
+        from npstructures import RaggedArray
+        g = sym_ragged(ctx, kind="elem")
+        files = {}
+
+        def savez_stub(self_, filename, *args, **kw):
+            files.setdefault(filename, []).append((args, dict(kw)))
+
+        def load_stub(self_, filename, *a, **k):
+            return files[filename][-1][1]
+        olds = {nm: symnp.SymNumpy.__dict__.get(nm) for nm in ("savez", "load")}
+        symnp.SymNumpy.savez, symnp.SymNumpy.load = savez_stub, load_stub
+        try:
+            g.ra.save("FILE")
+            out = RaggedArray.load("FILE")
+        finally:
+            for nm, f in olds.items():
+                if f is None:
+                    delattr(symnp.SymNumpy, nm)
+                else:
+                    setattr(symnp.SymNumpy, nm, f)
+        ok = list(files) == ["FILE"] and len(files["FILE"]) == 1 and not files["FILE"][0][0] and isinstance(out, RaggedArray)
+        ctx.prove("post.one np.savez with named arrays only, a RaggedArray loaded", z3.BoolVal(ok))
+        if not ok:
+            return
+        stored = files["FILE"][0][1]
+        ctx.prove("post.the file holds the flat data and the geometry", z3.BoolVal("data" in stored and len(stored) == 2 and all(isinstance(v, SymArr) for v in stored.values())))
+        r = g.row()
+        ctx.prove("post.same number of rows", I(sym_len_(out)) == g.n)
+        ctx.prove("post.same row starts and lengths", z3.And(out._shape.starts.get(r) == g.S(r), out._shape.lengths.get(r) == g.L(r)), pool=[r, r + 1])
+        j = z3.Int("j")
+        ctx.skolem(z3.And(0 <= j, j < g.S(g.n)))
+        fl = out.ravel()
+        ctx.prove("post.same cells, same element type", z3.And(dim_term(fl.shape_[0]) == g.S(g.n), fl.get(j) == g.D.fn(j), z3.BoolVal(out.dtype == g.D.dtype)), pool=[j, g.n])
+        ctx.prove("post.the saved array is not modified", z3.BoolVal(g.D.buf.writes == 0 and g.ra._shape is g.obj))
+
+    def concretise(self, kind, model, ghost):
+        return {"lengths": [2, 0, 3, 1, 0]}
+
+    def concrete(self, case):
+        import os
+        import tempfile
+        from npstructures import RaggedArray
+        ls = case["lengths"]
+        rows, v = [], 3
+        for l in ls:
+            rows.append([((v + i) * 7) % 11 - 3 for i in range(l)])
+            v += l
+        ra = RaggedArray(np.array([x for r in rows for x in r], dtype=np.int16), ls)
+        d = tempfile.mkdtemp(prefix="vf_saveload_")
+        try:
+            fn = os.path.join(d, "x.npz")
+            ra.save(fn)
+            back = RaggedArray.load(fn)
+            if back.tolist() != rows or back.dtype != ra.dtype or len(back) != len(ls) or ra.tolist() != rows:
+                return {"msg": f"save/load of rows {rows}: loaded {back.tolist()} ({back.dtype})", "sig": "wrong:save-load"}
+        except Exception as e:
+            return {"msg": f"save/load of rows {rows} raised {type(e).__name__}: {e}", "sig": "raised:save-load"}
+        finally:
+            import shutil
+            shutil.rmtree(d, ignore_errors=True)
+
+    def bounded_cases(self, tier, seed):
+        from ..bounded.common import length_vectors
+        for ls in length_vectors(3, 2):
+            yield {"lengths": ls}
+
+
+@register
 class NumpyRoundTrip(Family):
     name = "RaggedArray.to_numpy_array/from_numpy_array"
     qualname = "npstructures.raggedarray:RaggedArray.to_numpy_array"
